@@ -11,21 +11,16 @@ From Coq Require Import Arith List Bool Lia.
 From CgnsV Require Import Refcount RefcountProofs.
 Import ListNotations.
 
-(* ---- the full-strength statement -------------------------------------------------------------------------------
-   for ANY session of opens, link traversals and closes (valid or not, in any order) after which the user has called
-   close for every handle an open returned: every in_use is 0, the ledger of descriptors is empty, the cgio table
-   is released. *)
-Definition C17_refcount_balanced (v : variant) : Prop :=
-  forall w fuel ops s rs, run v fuel w io_init [] ops = Some (s, [], rs) -> clean s.
+(* ---- the full-strength statement is [refcount_balanced] of Refcount.v: for ANY session of opens, link traversals and
+   closes (valid or not, in any order, any link graph) after which the user has called close for every handle an open
+   returned: every in_use is 0, the ledger of descriptors is empty, the cgio table is released.
 
-(* FALSE of the code as it is.  Witness: B = F1; A = F0 links to B; C = F2 links to A; A opened once, C twice, both C
+   It is FALSE of the code as it is.  Witness: B = F1; A = F0 links to B; C = F2 links to A; A opened once, C twice, both C
    handles read through A, the first one on to B; close C#1 (closes B under A's feet), close A (reports
-   ADF_FILE_NOT_OPENED after having dropped A's reference, cgio keeps the slot), close C#2.  Every handle has been closed
-   by its user; one cgio slot stays allocated for ever. *)
-Theorem C17_refcount_refuted : ~ C17_refcount_balanced Faithful.
-Proof.
-  intros H. destruct refuted_shared_link as (s & rs & Rn & _ & _ & _ & _ & Nc). exact (Nc (H _ _ _ _ _ Rn)).
-Qed.
+   ADF_FILE_NOT_OPENED after having dropped A's reference, so cgio keeps the slot), close C#2.  Every handle has been
+   closed by its user; one cgio slot stays allocated for ever. *)
+Theorem C17_refcount_refuted : ~ refcount_balanced Faithful.
+Proof. exact refcount_balanced_refuted. Qed.
 Print Assumptions C17_refcount_refuted.
 
 Theorem C17_refcount_refuted_witness :
@@ -89,28 +84,25 @@ Theorem C17_failing_link_open_releases : forall v fuel w a n a',
 Proof. exact failing_link_open_ledger. Qed.
 Print Assumptions C17_failing_link_open_releases.
 
-(* ---- the MLL table (cg_open / cg_close): cgio handles acquired by cg_open ------------------------------------- *)
-Definition C17_handles_released (v : mvariant) : Prop :=
-  forall ops m, mrun v mll_init [] ops = (m, []) -> mclean m.
-
+(* ---- the MLL table (cg_open / cg_close): [handles_released] of Refcount.v -------------------------------------- *)
 (* FALSE of the code as it is: a cg_open that fails after cgio_open_file succeeded returns without undoing anything *)
-Theorem C17_handles_released_refuted : ~ C17_handles_released MFaithful.
-Proof.
-  intros H. destruct mll_refuted_failed_open as (m & Rn & N1 & _). destruct (H _ _ Rn) as (N0 & _). congruence.
-Qed.
+Theorem C17_handles_released_refuted : ~ handles_released MFaithful.
+Proof. exact handles_released_refuted. Qed.
 Print Assumptions C17_handles_released_refuted.
 
-Theorem C17_handles_released_fixed : C17_handles_released MFixed.
-Proof. exact mll_released_fixed. Qed.
+Theorem C17_handles_released_refuted_witness :
+  exists m, mrun MFaithful mll_init [] [MOpen OLateFail] = (m, []) /\ n_open m = 1 /\ held m = [0] /\ files m = [Some 0].
+Proof. exact mll_refuted_failed_open. Qed.
+Print Assumptions C17_handles_released_refuted_witness.
+
+Theorem C17_handles_released_fixed : handles_released MFixed.
+Proof. exact handles_released_fixed. Qed.
 Print Assumptions C17_handles_released_fixed.
 
 (* ---- non-vacuity ------------------------------------------------------------------------------------------------ *)
 (* the witness world W1 is acyclic, and the repaired model closes the witness session cleanly *)
 Example C17_w1_acyclic : acyclic w1 (fun n => match n with 2 => 2 | 0 => 1 | _ => 0 end).
-Proof.
-  intros a b H. unfold has_link, w1 in H. simpl in H.
-  destruct a as [|[|[|a]]]; destruct b as [|[|[|b]]]; simpl in H; try discriminate; lia.
-Qed.
+Proof. exact w1_acyclic. Qed.
 
 Example C17_fixed_w1_clean : exists s rs, run FixA 1000 w1 io_init [] ops1 = Some (s, [], rs) /\ cleanb s = true /\
   forallb (fun r => match r with ResClose ROk | ResOpen (Some _) | ResWalk true => true | _ => false end) rs = true.
@@ -120,14 +112,9 @@ Proof. exact fixA_w1_clean. Qed.
 Example C17_invariant_example :
   exists s rs, run FixA 1000 w1 io_init [] [OOpen 0 false; OOpen 2 false; OWalk 2 [0; 1]] = Some (s, [2; 1], rs) /\
                IOInv w1 s [2; 1] /\ in_use (slot_at (io_adf s) 0) = 2 /\ ledger (io_adf s) = [1; 2; 0].
-Proof.
-  destruct (run FixA 1000 w1 io_init [] [OOpen 0 false; OOpen 2 false; OWalk 2 [0; 1]]) as [[[s p] rs]|] eqn:E;
-    [|vm_compute in E; discriminate].
-  pose proof (run_inv _ _ _ _ _ _ _ _ (IOInv_init w1) E) as I.
-  vm_compute in E. inversion E; subst. eexists. eexists. split; [reflexivity|]. split; [exact I|]. split; reflexivity.
-Qed.
+Proof. exact invariant_example. Qed.
 
 Example C17_mll_fixed_example :
   exists m, mrun MFixed mll_init [] [MOpen OSuccess; MOpen OLateFail; MOpen OSuccess; MClose 1 true; MClose 3 true] = (m, []) /\
             n_open m = 0 /\ held m = [] /\ files m = [] /\ foffset m = 3.
-Proof. eexists. repeat split; reflexivity. Qed.
+Proof. exact mll_fixed_example. Qed.
